@@ -461,6 +461,32 @@ def q_dispatch(a):
            "against that element; the traversal continues (next position, that element) exactly for the elements whose status is PASS - "
            "FAIL and SKIP select nothing; every element is visited; an evaluation error is an error of the query")
 
+    # ---- `.n` on a list (a key that is a number): the same lookup as `[n]` --------------------------------------------------
+    ex, h = _directed(a, QP.index("Key"), LIST, extra_models={"parse": lambda ex, av: ex.fresh_enum("Result", 2, "pari", {"Ok": ex.fresh_int("i32", "keyidx"), "Err": ex.opq()})})
+    bad = []
+    for p in ex.paths:
+        r = p.ret
+        pa = calls(p, "parse")
+        ri, mr, un = calls(p, "retrieve_index"), calls(p, "map_resolved"), calls(p, "to_unresolved_result")
+        if p.outcome != "return" or r is None or len(pa) != 1 or not same(pa[0][2][0], payload(ex, h["part"], "Key")):
+            bad.append(f"(and {pc_term(p.pc)} {in_range(ex, h)})")
+            continue
+        is_num = f"(= {pa[0][3][2]} 0)"
+        if ri:
+            lst = payload(ex, h["cur"], "List")
+            ok = (len(ri) == 1 and len(mr) == 1 and not un and not calls(p, REC) and r == mr[0][3] and same(ri[0][2][0], h["cur"])
+                  and ri[0][2][1] == pa[0][3][3]["Ok"] and same(ri[0][2][2], field(ex, lst, 1, "Vec")) and len(mr[0][2]) == 3 and same(mr[0][2][1], ri[0][3]))
+            cl = mr[0][2][2] if ok else None
+            ok = ok and cl[0] == "struct" and any(same(v, h["qi"]) for v in cl[2].values()) and any(same(v, h["query"]) for v in cl[2].values())
+            bad.append(f"(and {pc_term(p.pc)} {in_range(ex, h)} (not (and {is_num} {'true' if ok else 'false'})))")
+        else:
+            # a key that is not a number on a list: unresolved at the list
+            ok = len(un) == 1 and r == un[0][3] and same(un[0][2][0], h["cur"]) and not calls(p, REC)
+            bad.append(f"(and {pc_term(p.pc)} {in_range(ex, h)} (not (and (not {is_num}) {'true' if ok else 'false'})))")
+    finish("key-number/list", ex, bad,
+           "`.n` on a list: a key that parses as a number is the same lookup as `[n]` - retrieve_index(current list, that number, its elements) "
+           "piped through map_resolved with a continuation over THIS position and query; any other key on a list is unresolved at the list")
+
     # ---- `*` and named `[*]` on a MAP: handed to accumulate_map with the map itself; unnamed `[*]` keeps the map ----------
     def accmap_ok(ex, h, e):
         mapv = field(ex, payload(ex, h["cur"], "Map"), 1, "MapValue")
@@ -734,7 +760,7 @@ def replay_queries(a):
              ("N[1][1] !exists", "PASS"), ("s[*] == 5", "PASS"), ("s.x !exists", "PASS"), ("this.s == 5", "PASS"), ("L.*.x >= 1", "PASS"),
              ("M[*].a.v == 1", "PASS"), ("M[*].b.v == 2", "PASS"), ("M[*].a.v == 2", "FAIL"), ("M[*].c !exists", "PASS"), ("some M.*.v == 2", "PASS"),
              ("M.*.v == 2", "FAIL"), ("M.* !empty", "PASS"),
-             ("M.*[ v == 2 ].v == 2", "PASS"), ("M.*[ v == 1 ].v == 2", "FAIL"), ("M.*[ v == 9 ].v == 2", "SKIP"), ("M.*[ v >= 1 ].v >= 1", "PASS")]
+             ("M.*[ v == 2 ].v == 2", "PASS"), ("M.*[ v == 1 ].v == 2", "FAIL"), ("M.*[ v == 9 ].v == 2", "SKIP"), ("M.*[ v >= 1 ].v >= 1", "PASS"), ("L.0.x == 1", "PASS"), ("L.1.x == 2", "PASS"), ("L.1.x == 1", "FAIL"), ("L.2 !exists", "PASS"), ("N.0.1 == 2", "PASS")]
     return a.replay_cases(exe, data, cases)
 
 
